@@ -35,6 +35,15 @@ namespace verif
                    (int)FOONATHAN_MEMORY_DEBUG_ASSERT);
     }
 
+    // independent re-implementation of "natural alignment of a size" for the oracles
+    inline std::size_t alignment_for_size(std::size_t size)
+    {
+        std::size_t a = 1;
+        while (a < 16 && size % (2 * a) == 0 && size != 0)
+            a *= 2;
+        return a;
+    }
+
     //=== handlers ===//
     struct Handlers
     {
@@ -215,8 +224,8 @@ namespace verif
             for (std::size_t i = 0; i < a.size; ++i)
                 if (p[i] != pat(a, i))
                 {
-                    fail(fmt("content of live allocation id=%ld changed at byte %zu (%s): %02x, expected %02x", a.id, i, when,
-                             p[i], pat(a, i)));
+                    fail(fmt("content of live allocation id=%ld [%zu,+%zu) changed at byte %zu (%s): %02x, expected %02x", a.id, a.off,
+                             a.size, i, when, p[i], pat(a, i)));
                     return;
                 }
         }
